@@ -171,17 +171,34 @@ Definition all_same_length (g : list (positive * list caexpr)) : bool :=
 Definition unroll (vals : list Z) (body : list cassign) : list cassign :=
   flat_map (fun v => map (fun xc => (fst xc, bind_i v (snd xc))) body) vals.
 
-Definition tr_stmt (s : stmt) : res (list cassign) :=
+(* fresh temporary `_pymoca_if_<id>_<name>` of the repaired exitIfStatement *)
+Definition tmp_of (x : positive) : positive := (x + 1000)%positive.
+
+(* seq_if = which exitIfStatement the tree has (probed on every run, run/C11/Gen.v):
+   false: one if_else per variable, merged per left-hand side (expanded_blocks);
+   true : fixes/C11_if_statement_sequential — every branch is first executed on its own by
+          sequential substitution (values in terms of the state before the if-statement), the
+          branch results are merged with if_else, assigned to fresh temporaries and only then to
+          the variables (so that all variables change simultaneously) *)
+Definition tr_stmt (seq_if : bool) (s : stmt) : res (list cassign) :=
   match s with
   | SAssign a => tr_assigns [a]
   | SIf brs els =>
-      (* line 562: equal number of statements per branch *)
+      (* equal number of statements per branch *)
       if forallb (fun b => Nat.eqb (length (snd b)) (length els)) brs then
         match tr_conds (map fst brs), tr_blocks (map snd brs ++ [els]) with
         | Ok conds, Ok blocks =>
-            let g := expand blocks in
-            if all_same_length g then Ok (map (fun yl => (fst yl, merge conds (snd yl))) g)
-            else Err E_shape
+            if seq_if then
+              let finals := map (fun cb => apply_assigns cb sigma0) blocks in
+              let lhss := map fst (hd [] blocks) in
+              if forallb (fun cb => forallb (fun x => existsb (Pos.eqb x) (map fst cb)) lhss) blocks
+              then Ok (map (fun x => (tmp_of x, merge conds (map (fun f => f x) finals))) lhss
+                       ++ map (fun x => (x, CSym (SVar (tmp_of x)))) lhss)
+              else Err E_shape
+            else
+              let g := expand blocks in
+              if all_same_length g then Ok (map (fun yl => (fst yl, merge conds (snd yl))) g)
+              else Err E_shape
         | Err w, _ => Err w
         | _, Err w => Err w
         end
@@ -193,10 +210,10 @@ Definition tr_stmt (s : stmt) : res (list cassign) :=
            | Err w => Err w
            end
   end.
-Fixpoint tr_stmts (l : list stmt) : res (list cassign) :=
+Fixpoint tr_stmts (seq_if : bool) (l : list stmt) : res (list cassign) :=
   match l with
   | [] => Ok []
-  | s :: r => match tr_stmt s, tr_stmts r with
+  | s :: r => match tr_stmt seq_if s, tr_stmts seq_if r with
               | Ok a, Ok b => Ok (a ++ b)
               | Err w, _ => Err w
               | _, Err w => Err w
@@ -204,8 +221,8 @@ Fixpoint tr_stmts (l : list stmt) : res (list cassign) :=
   end.
 
 (* get_function: the output expressions over the input symbols *)
-Definition tr_func (f : func) : res (list caexpr) :=
-  match tr_stmts (f_body f) with
+Definition tr_func (seq_if : bool) (f : func) : res (list caexpr) :=
+  match tr_stmts seq_if (f_body f) with
   | Ok l => let sigma := apply_assigns l sigma0 in Ok (map sigma (f_out f))
   | Err w => Err w
   end.
@@ -230,10 +247,10 @@ Fixpoint all_some {A} (l : list (option A)) : option (list A) :=
   | Some x :: r => match all_some r with Some xs => Some (x :: xs) | None => None end
   | None :: _ => None
   end.
-Definition ca_call_res (T : table) (q : call_eqn) (rho : cenv) : res (option (list (option Qc))) :=
+Definition ca_call_res (T : table) (seq_if : bool) (q : call_eqn) (rho : cenv) : res (option (list (option Qc))) :=
   match q with
   | (lhs, f, args) =>
-      match tr_func T f, tr_exprs T args with
+      match tr_func T seq_if f, tr_exprs T args with
       | Ok outs, Ok cargs =>
           match all_some (map (fun c => ca_eval F c rho) cargs) with
           | Some vs =>
@@ -251,8 +268,8 @@ Definition ca_call_res (T : table) (q : call_eqn) (rho : cenv) : res (option (li
 End WithFun.
 
 (* one call equation of a model on which generate() succeeded *)
-Definition check_call (F : positive -> Qc -> Qc) (T : table) (rho : cenv) (q : call_eqn) (l : list obs) : bool :=
-  match ca_call_res F T q rho with
+Definition check_call (F : positive -> Qc -> Qc) (T : table) (seq_if : bool) (rho : cenv) (q : call_eqn) (l : list obs) : bool :=
+  match ca_call_res F T seq_if q rho with
   | Ok (Some m) => close_all m l
   | Ok None => true
   | Err _ => false
